@@ -25,9 +25,11 @@ theorem global_state_pinned : Gen.globalStateDigest = 362406626888142898 ∧ Gen
     result or an error text -/
 theorem no_unordered_iteration : Gen.unorderedIterationsDigest = 357258652861774496 ∧ Gen.unorderedIterations.length = 0 := by decide
 
-/-- the only ambient input (time, randomness, environment, hasher state, threads) is the working
-    directory read by `parse_str` -/
-theorem ambient_inputs_pinned : Gen.ambientInputsDigest = 1104928131873560741 ∧ Gen.ambientInputs.length = 1 := by decide
+/-- ambient inputs (time, randomness, environment, hasher state, threads, user directories): the
+    working directory read by `parse_str`, and the user's configuration directory — which only
+    the command-line tool (`main.rs`, through `utility::get_standard_includes`) and `build.rs`
+    consult; the library's build functions take their include directories as an argument -/
+theorem ambient_inputs_pinned : Gen.ambientInputsDigest = 57165076209465547 ∧ Gen.ambientInputs.length = 7 := by decide
 
 /-! ### the model: a build starts from nothing and depends on nothing else -/
 
